@@ -758,12 +758,10 @@ func (g *GoFakeS3) copyObject(bucket, object string, meta map[string]string, w h
 	// "If the current version of the object is a delete marker, Amazon S3
 	// behaves as if the object was deleted."
 
-	// merge metadata, ACL is not preserved
-	for k, v := range srcObj.Metadata {
-		if _, found := meta[k]; !found && k != "X-Amz-Acl" {
-			meta[k] = v
-		}
-	}
+	// The source's metadata is carried over by the backend, from the very
+	// object it copies (see CopyObject): merged here from the HeadObject
+	// above, an upload to the source in between would give the copy the
+	// new body with the old metadata.
 
 	result, err := g.storage.CopyObject(srcBucket, srcKey, bucket, object, meta)
 	if err != nil {
